@@ -143,6 +143,22 @@ def _sync(ctx):
                'every synchronisation reaches the %s loop (no early '
                'return)' % name, path=K.describe(path) if path else None,
                construct='%s loop always reached' % name)
+    # a synchronisation that could not write a file does not end as if it
+    # had: a failure of _cache escapes _synchronize (the service dies, is
+    # restarted and synchronises again) - nothing in _synchronize handles
+    # it and goes on to report the cache ready
+    handled = []
+    for node, call in K.nodes_calling(graph, lambda c: K.is_meth(
+            c, '_cache')):
+        for edge in node.succ:
+            if edge.kind != 'exc':
+                continue
+            reach = K.cut_reach(graph, edge.dst, follow_exc=True)
+            if any(n.kind == 'handler' for n in reach | {edge.dst}):
+                handled.append(node)
+    ctx.ob('C12.1', func, handled[0] if handled else None, not handled,
+           'a failure to cache an instance escapes _synchronize (no handler '
+           'around the _cache calls)', construct='cache failure escapes')
     loop = seen['existing']
     path = K.find_path(graph.entry, [graph.exit],
                        cut_node=lambda n: n is loop,
@@ -758,7 +774,7 @@ def _owner_package(ctx):
 
 
 def check(ctx):
-    if ctx.tier == 'thorough':
+    if ctx.tier in ('quick', 'thorough'):   # whole-package clause, cheap enough for every run
         _owner_package(ctx)
     em = _sync(ctx)
     _first_sync(ctx, em)
